@@ -6,6 +6,10 @@
 //! which share no code with the model:
 //!   O1  offset_at(t) is what the zone data prescribe (table: last transition <= t / first type;
 //!       rule: an independent evaluation with Hinnant's civil-day algorithm)
+//!   O1s offset_at(t) under a footer / POSIX rule is what the rule's transition SEQUENCE prescribes: the
+//!       latest start or end instant of ANY year at or before t decides (`Spec.Zone.ruleDstSeq`), not
+//!       the two transitions of t's calendar year; where the start/end order flips between the years
+//!       around t the code (per-year decision) differs: failures carry F30's prefix there, none elsewhere
 //!   O2  round trip: offsets_for_local(t + offset_at(t)) contains offset_at(t)
 //!   O3  0/1/2 candidates = brute-force wall set computed from offset_at over the zone's offsets,
 //!       candidates distinct and ordered earliest instant first
@@ -382,6 +386,50 @@ fn spec_at(pz: &Pz, t: i64) -> Option<(i64, bool)> {
     }
 }
 
+/// O1s — the rule as the SEQUENCE of its transitions (`Spec.Zone.ruleDstSeq`), not decided year by year:
+/// the start and end instants of the years y-2 ..= y+1 (y = calendar year of t) are put in one list, sorted by
+/// instant (an end coinciding with a start sorts after it), and the LATEST one at or before t decides:
+/// daylight time iff it is a start.  `None` = not evaluated (before the last table transition, no
+/// alternate-time rule, year outside the rule arithmetic, or a transition of y-2 ..= y+1 within a day of its
+/// year boundary: outside the property's quantifier — with those four years inside, no transition of any
+/// other year can be the latest one at or before t).  The third component says whether the start/end order
+/// differs between two of those years (`¬ OrderStable`): there the per-year decision of the code (and of
+/// glibc) manufactures a change of offset at the year boundary (`Props.C05.order_flip_phantom`, finding F30).
+fn seq_at(pz: &Pz, t: i64) -> Option<(i64, bool, bool)> {
+    let after_last = match pz.trans.last() {
+        None => true,
+        Some(&(lt, _)) => t >= lt,
+    };
+    let Rule::Alt(a) = &pz.rule else { return None };
+    if !after_last {
+        return None;
+    }
+    let y = year_of_day(t.div_euclid(86400));
+    if y.abs() > YEAR_LIM || !(y - 2..=y + 1).all(|k| inside_year_ut(a, k)) {
+        return None;
+    }
+    // (instant, is_end): sorted ascending, so of two transitions at the same instant the end comes last
+    let mut seq: Vec<(i64, bool)> = vec![];
+    for k in y - 2..=y + 1 {
+        seq.push((start_at(a, k), false));
+        seq.push((end_at(a, k), true));
+    }
+    seq.sort();
+    let mut latest: Option<bool> = None; // is_end of the latest transition at or before t
+    for &(x, is_end) in &seq {
+        if x <= t {
+            latest = Some(is_end);
+        } else {
+            break;
+        }
+    }
+    let dst = latest == Some(false);
+    let north = |k: i64| start_at(a, k) <= end_at(a, k);
+    let flips = (y - 2..=y).any(|k| north(k) != north(k + 1));
+    let l = if dst { &a.dst } else { &a.std };
+    Some((l.off, l.dst, flips))
+}
+
 /// classify a wall-clock reading for O2/O3.  Excepted by the property: T + prevOff for table
 /// transitions that change the offset, the rule's own start/end wall-clock second in the neighbouring
 /// years when the rule changes the offset.
@@ -662,6 +710,20 @@ fn run_zone(c: &mut Ctx, z: &Zc) {
                     }
                 }
                 None => c.count("O1.skipped(rule transition near year boundary or year out of range)"),
+            }
+            // O1s: the same instant against the rule's transition SEQUENCE (independent of the per-year
+            // decision that `spec_at`, the Lean spec `offAt` and the code share).  Where the start/end
+            // order is the same in the years around t a difference is a plain failure; where it flips
+            // the code is known to differ (F30 widened to the lookup by instant): F30's prefix.
+            if let Some((so, sd, flips)) = seq_at(pz, t) {
+                c.count(if flips { "O1s.checked[rule start/end order flips]" } else { "O1s.checked" });
+                if (so, sd) != (*o as i64, *d) {
+                    fail1c(
+                        c, &mut seen, pz, i64::MAX, if flips { Some(PFX_RULE) } else { None },
+                        "offset_at differs from the rule's transition sequence (the latest start/end instant of any year at or before t decides)",
+                        &format!("{} [{}] t={} got=({},{}) expected=({},{}) dump={}", z.class, z.label, t, o, d, so, sd, short(&z.dump)),
+                    );
+                }
             }
             // O2
             let l = t.saturating_add(*o as i64);
